@@ -2,6 +2,7 @@ package main
 
 import (
 	"fmt"
+	"os"
 	"reflect"
 	"sort"
 
@@ -178,6 +179,10 @@ func fingerprint(root interface{}) (uint64, int) {
 	return w.h, w.nodes
 }
 
+// debugNoFP (env VERIF_DEBUG_NOFP=1) switches the fingerprint oracle off; only used to measure what
+// the other oracles catch on their own during sensitivity experiments, never by registered checks.
+var debugNoFP = os.Getenv("VERIF_DEBUG_NOFP") == "1"
+
 // FP is a named set of fingerprints.
 type FP struct {
 	Names []string
@@ -228,6 +233,9 @@ func fpObjects(names []string, objs []interface{}) FP {
 // Diff returns the names whose fingerprint differs.
 func (a FP) Diff(b FP) []string {
 	var d []string
+	if debugNoFP {
+		return nil
+	}
 	for i := range a.Sums {
 		if i >= len(b.Sums) || a.Sums[i] != b.Sums[i] {
 			d = append(d, a.Names[i])
